@@ -79,7 +79,12 @@ var (
 	f64Vals   = []float64{0, 1.5, -2.25, 1e-7, 1e21, 3.141592653589793, 1e300}
 	f32Vals   = []float32{0, 1.5, -2.25, 1e-7, 3.4e38}
 	timeVals  = []time.Time{time.Unix(0, 0).UTC(), time.Unix(1700000000, 0).UTC(), time.Unix(1700000000, 123456789).UTC(), time.Date(2001, 2, 3, 4, 5, 6, 7, time.FixedZone("X", 3600)),
-		{}, time.Date(3000, 1, 1, 0, 0, 0, 0, time.UTC), time.Date(1500, 6, 1, 12, 0, 0, 5, time.UTC)} // the last three lie outside the UnixNano range
+		{}, time.Date(3000, 1, 1, 0, 0, 0, 0, time.UTC), time.Date(1500, 6, 1, 12, 0, 0, 5, time.UTC), // these three lie outside the UnixNano range
+		// what the standard library hands out besides: a zone offset with a seconds part (local mean time in the
+		// zone database before standard time), a negative odd offset, a reading of the wall clock (with its
+		// monotonic part), a time in time.Local
+		time.Date(1883, 11, 18, 12, 0, 0, 0, time.FixedZone("LMT", -17762)), time.Date(2020, 1, 1, 0, 0, 0, 0, time.FixedZone("odd", 3601)),
+		time.Now(), time.Unix(1700000000, 5).In(time.Local)}
 	durVals   = []time.Duration{0, 1, time.Millisecond, 1500 * time.Microsecond, time.Hour, -time.Second}
 	errVals   = []error{errors.New("plain error"), errors.New(""), errors.New("err \"q\""), fmt.Errorf("outer: %w", errors.New("inner")), fmt.Errorf("a: %w", fmt.Errorf("b: %w", io.EOF))} // wrapping errors whose Error() returns a stored text (one that builds its text on each call allocates by itself)
 	rawVals   = [][]byte{[]byte(`{}`), []byte(`{"a":1}`), []byte(`[1,2,3]`), []byte(`null`)}
@@ -98,7 +103,8 @@ var (
 	uints64   = [][]uint64{nil, {1, 1<<64 - 1}}
 	f32s      = [][]float32{nil, {}, {1.5, -2}}
 	f64s      = [][]float64{nil, {}, {1.5, 1e-9}}
-	timesVals = [][]time.Time{nil, {}, {time.Unix(1, 0).UTC(), time.Unix(2, 5).UTC()}, {{}, time.Date(3000, 1, 1, 0, 0, 0, 0, time.UTC)}}
+	timesVals = [][]time.Time{nil, {}, {time.Unix(1, 0).UTC(), time.Unix(2, 5).UTC()}, {{}, time.Date(3000, 1, 1, 0, 0, 0, 0, time.UTC)},
+		{time.Date(1883, 11, 18, 12, 0, 0, 0, time.FixedZone("LMT", -17762)), time.Date(2020, 1, 1, 0, 0, 0, 0, time.FixedZone("odd", 3601)), time.Now()}}
 	dursVals  = [][]time.Duration{nil, {}, {time.Second, 3}}
 )
 
